@@ -12,10 +12,6 @@ no allowed operand, `pureProg` / `freshResults`).  Core Lean only.
 import PyttbModel.Lemmas.Heap
 namespace Pyttb.Heap
 
-def Step.isWrite : Step → Bool
-  | .write _ _ => true
-  | _ => false
-
 def Step.isAlloc : Step → Bool
   | .copy _ | .fresh _ _ => true
   | _ => false
@@ -25,9 +21,6 @@ def Step.viewSrc : Step → Option Nat
   | .transpose r _ | .tr r | .reshapeF r _ | .asF r | .squeeze r | .slice r _ _ _
   | .select r _ _ | .newaxis r _ | .alias r => some r
   | _ => none
-
-/-- number of registers a program defines -/
-def ndefs (p : Prog) : Nat := p.countP (fun s => !s.isWrite)
 
 /-- the per-step condition; `d` = number of registers defined so far -/
 def stepOK (b : Nat) (recv allowed : List Nat) (d : Nat) : Step → Bool
